@@ -20,7 +20,11 @@ import (
 type c01case struct {
 	gg.Case
 	RtMax int `json:"rtmax,omitempty"`
-	// Entry: the public entry point of the root: "" (Invoke) | "stream" | "transform" (see stream.go)
+	// RtOpts (round 5): ALL the WithRuntimeMaxSteps options of the call, in order (several, and non-positive
+	// ones, are legal: the last positive one counts). Empty = [RtMax] when RtMax > 0. RtMax is always the effective
+	// limit the Go oracle uses (recomputed from RtOpts by normRt); the model computes it from the list itself.
+	RtOpts []int `json:"rtopts,omitempty"`
+	// Entry: the public entry point of the root: "" (Invoke) | "stream" | "transform" | "collect" (see stream.go)
 	Entry string `json:"entry,omitempty"`
 	// AutoKeys: the chains of the forest are built without WithNodeKey (Chain generates the graph keys)
 	AutoKeys bool `json:"autokeys,omitempty"`
@@ -40,11 +44,38 @@ type c01case struct {
 
 // coqTerm: the case as it was given to eino (the model applies the runtime limit itself: with_rtmax)
 func (c *c01case) coqTerm(obs *gg.Obs) string {
-	rt := c.RtMax
-	if rt < 0 {
-		rt = 0
+	var opts []string
+	for _, o := range c.rtOpts() {
+		if o < 0 {
+			o = 0 // a negative option is ignored like a zero one (`> 0` in runner.run)
+		}
+		opts = append(opts, lib.CoqNat(o))
 	}
-	return lib.CoqApp("Build_ccase", c.Case.CoqCase(obs), lib.CoqN(c.entryNo()), lib.CoqNat(rt))
+	return lib.CoqApp("mk_ccase", c.Case.CoqCase(obs), lib.CoqN(c.entryNo()), lib.CoqList(opts))
+}
+
+// rtOpts: the WithRuntimeMaxSteps options handed to the call, in order
+func (c *c01case) rtOpts() []int {
+	if len(c.RtOpts) > 0 {
+		return c.RtOpts
+	}
+	if c.RtMax > 0 {
+		return []int{c.RtMax}
+	}
+	return nil
+}
+
+// normRt: RtMax = the last positive option (what runner.run's loop over the call options leaves in maxSteps)
+func (c *c01case) normRt() {
+	if len(c.RtOpts) == 0 {
+		return
+	}
+	c.RtMax = 0
+	for _, o := range c.RtOpts {
+		if o > 0 {
+			c.RtMax = o
+		}
+	}
 }
 
 func (c *c01case) entryNo() uint64 {
@@ -53,6 +84,8 @@ func (c *c01case) entryNo() uint64 {
 		return 1
 	case "transform":
 		return 2
+	case "collect":
+		return 3
 	}
 	return 0
 }
@@ -89,6 +122,17 @@ func (engine) Generate(r *lib.Rng, tier string, i int) any {
 	}
 	if r.Chance(1, 8) {
 		c.RtMax = r.Range(1, 9)
+		if r.Chance(1, 2) {
+			// several options in one call: an earlier one that must lose, a trailing non-positive one that must not win
+			c.RtOpts = []int{r.Range(1, 9), c.RtMax}
+			if r.Chance(1, 2) {
+				c.RtOpts = append(c.RtOpts, 0)
+			}
+			if r.Chance(1, 4) {
+				c.RtOpts = append([]int{0}, c.RtOpts...)
+			}
+			c.normRt()
+		}
 	}
 	if hasChain(&c.Case) && r.Chance(1, 3) {
 		c.AutoKeys = true
@@ -116,6 +160,8 @@ func (engine) Generate(r *lib.Rng, tier string, i int) any {
 			c.Entry = "stream"
 		case x == 2:
 			c.Entry = "transform"
+		case x == 3:
+			c.Entry = "collect"
 		}
 	}
 	return c
@@ -352,14 +398,15 @@ func (engine) Decode(raw json.RawMessage) (any, error) {
 	if len(c.Forest) == 0 || c.Input == nil {
 		return nil, fmt.Errorf("case needs forest and input")
 	}
+	c.normRt()
 	return &c, nil
 }
 
 func (engine) Run(c any) lib.Result {
 	cc := c.(*c01case)
 	ro := gg.RunOpts{}
-	if cc.RtMax > 0 {
-		ro.CallOpts = []compose.Option{compose.WithRuntimeMaxSteps(cc.RtMax)}
+	for _, o := range cc.rtOpts() {
+		ro.CallOpts = append(ro.CallOpts, compose.WithRuntimeMaxSteps(o))
 	}
 	ro.Build.AutoChainKeys = cc.AutoKeys
 	ro.Build.Reuse = cc.Reuse
@@ -395,6 +442,9 @@ func (engine) Run(c any) lib.Result {
 	res := lib.Result{Obs: obs, Tags: gg.Tags(cs, obs)}
 	if cc.RtMax > 0 {
 		res.Tags = append(res.Tags, "limit:runtime-option")
+	}
+	if len(cc.RtOpts) > 1 {
+		res.Tags = append(res.Tags, "limit:several-runtime-options")
 	}
 	if delayed {
 		res.Tags = append(res.Tags, "timing:unequal-nodes")
